@@ -42,6 +42,40 @@ CLAIMED["C12"] = dict(
     note="trusted: as C01; arguments have the Rust types (u8/u16/u32); the EDNS half of flags() is covered by C04",
     technique="Coq proof (bit-vector identities via N.testbit; finite sweeps lifted by forallb_forall) + exhaustive-word correspondence")
 
+CLAIMED["C03"] = dict(
+    category="proof",
+    text="Coq theorems (unbounded, closed under the global context): on every name the validator accepts the unchecked skip_name returns "
+         "the same end offset (C03_skip_name_agrees); every record the parser accepts is skipped by skip_name+skip_rdata to exactly the "
+         "parser's next position (C03_accepted_record_shape, C03_skip_rr_agrees); on every accepted packet, walking each record section with "
+         "OPT included visits exactly the announced number of records and stops, with no Panic outcome (C03_walk_including_opt_total). "
+         "PARTIAL with respect to the full statement: the values returned by the accessors (names, TTLs, data, addresses) and the OPT-skipping "
+         "and EDNS walks are not yet theorems; they are decided each run by the correspondence (model = implementation on every accessor of "
+         "every record, all pointer layouts, OPT first/middle/last/absent) plus an independent reference decoder used as oracle.",
+    ref="6/C03",
+    note="trusted: as C01; the reference decoder gen/dnsgen.py:decode_ref is an independent executable statement of RFC 1035 decoding used "
+         "only as oracle/search aid",
+    technique="Coq proof (validator/reader agreement by loop invariants, induction over the record chain) + correspondence with reference-decoder oracle")
+CLAIMED["C04"] = dict(
+    category="proof",
+    text="Coq theorems: flags() is bit for bit the header word with opcode/rcode masked out in the lower half and the EDNS flags in the upper "
+         "half, for every word and OPT value (C04_flags_word); dnssec() is AD for responses and DO for queries (C04_dnssec_bits). PARTIAL: "
+         "question extraction (raw, raw-without-root, lowercase text, cache filled/empty) and the EDNS summary fields equal independent "
+         "decoding on all generated packets and all 65536 flag words with/without OPT (thorough) - decided by correspondence + oracle, not yet "
+         "by a theorem.",
+    ref="6/C04",
+    note="trusted: as C01",
+    technique="Coq proof (bit-vector identities) + correspondence with reference-decoder oracle over all flag words")
+CLAIMED["C05"] = dict(
+    category="proof",
+    text="Coq theorems: decompression output starts with the input's 12 header bytes and name copying only appends (C05_header_kept, "
+         "C05_name_copy_appends); with C03's theorems the section walks inside uncompress cannot panic on accepted packets. PARTIAL: the full "
+         "statement (output = canonical pointer-free encoding of the decoded message, accepted, stable, record-boundary translation) is "
+         "decided each run by exact comparison, at EVERY record boundary of every generated packet, with an independent canonical encoder, "
+         "and by model = implementation correspondence.",
+    ref="6/C05",
+    note="trusted: as C01; gen/dnsgen.py:encode_plain is the independent canonical encoder used as oracle",
+    technique="Coq proof (frame/append invariants over the re-emission) + correspondence with canonical-encoder oracle at every record boundary")
+
 PENDING_REASON = "check not built yet in this round (model/theorems in progress; see DESIGN.md section 11 for the order of work)"
 
 
